@@ -148,6 +148,9 @@ class Env:
             r = ValueWrapper(t["n"])
         elif k == "flt":
             r = ValueWrapper(float(t["n"]))
+        elif k == "noparam":
+            # a constant the caller exempts from parameterisation: it stays a literal in both renderings and is in no value list
+            r = ValueWrapper(int(t["n"]) if t["n"].isdigit() else t["n"], allow_parametrize=False)
         elif k == "bool":
             r = ValueWrapper(bool(t["v"]))
         elif k == "arr":
@@ -185,8 +188,16 @@ class Env:
         elif k == "win":
             from pypika_tortoise import analytics as an
 
-            f = {"SUM": an.Sum, "ROW_NUMBER": lambda: an.RowNumber()}[t["f"]]
-            r = f(*[self.term(x) for x in t["args"]])
+            def plain(x):
+                # (the offset / bucket arguments of LAG, LEAD, NTILE are plain Python values in the API)
+                return int(x["n"]) if x["k"] == "num" else x["n"] if x["k"] == "str" else self.term(x)
+            f = {"SUM": an.Sum, "ROW_NUMBER": lambda: an.RowNumber(), "RANK": lambda: an.Rank(), "DENSE_RANK": lambda: an.DenseRank(), "MAX": an.Max, "COUNT": an.Count,
+                 "FIRST_VALUE": an.FirstValue, "LAST_VALUE": an.LastValue}.get(t["f"])
+            if t["f"] in ("LAG", "LEAD", "NTILE"):
+                cls = {"LAG": an.Lag, "LEAD": an.Lead, "NTILE": an.NTile}[t["f"]]
+                r = cls(*([self.term(t["args"][0])] if t["f"] != "NTILE" else []), *[plain(x) for x in t["args"][(1 if t["f"] != "NTILE" else 0):]])
+            else:
+                r = f(*[self.term(x) for x in t["args"]])
 
             def siblings(w):
                 # sibling windows derived from the same intermediate term and thrown away: what they partition / order by must not reach w
